@@ -27,6 +27,7 @@ ASSUMPTIONS = ["the snapshot rule is inserted with md.core.ruler.before('text_jo
 SHRINK = {"text": ["src"], "list": ["frags"]}
 
 INL = [
+    '*"**a**"*', "_'__a__'_", '***"*a*"***', '**"*a*"**', "*'**a**'* b",
     "a", "b c", "*e*", "**s**", "`c \"q\" 'r' -- ...`", "[l \"x\"](u \"t's\")", "![i's](s \"t\")", "<http://a.b/\"x\">", "<http://a.b/'q'--...>", "<b title=\"q\">", "&quot;", "&#39;",
     "\\\"", "\\'", '"', "'", '"', "'", '""', "''", "\"'", "(c)", "(tm)", "(R)", "(C)", "...", "....", "--", "---", "+-", "?!....", "!!!!!", "????", ",,", "1\"", "5'",
     "\n", " ", "  \n", "don't", '"a"', "'b'", "«", "é", ".", ",", "-", "[r]: \"x\"", "\\(c\\)", "\\.\\.\\.", "\\-\\-", "&#40;c&#41;", "&hellip;", "\\,,", ",\\,", "\\?\\?\\?\\?",
@@ -64,9 +65,18 @@ def _case(draw):
                 frags.append(["p", d.pick(PROTECT)])
             else:
                 frags.append(["r", d.pick(RAWFRAGS)])
+        if d.chance(0.35):
+            # a scoped abbreviation with one of its letters written as a reference, next to a raw one
+            ab = d.pick(["c", "r", "tm", "C", "R", "TM", "tM"])
+            j = d.i(0, len(ab) - 1)
+            seq = [["r", "("]] + [["e", ch] if i == j else ["r", ch] for i, ch in enumerate(ab)] + [["r", ")"]]
+            frags = frags[: d.i(0, len(frags))] + [["r", d.pick(["(c)", "(tm)", "(r)"])], ["r", " "]] + seq + [["r", " "]] + frags[:2]
         return {"kind": "escape-vs-entity", "preset": preset, "quotes": q, "mode": d.pick(["sq", "rep", "both"]), "frags": frags, "late": d.chance(0.25)}
     mode = d.pick(["sq", "rep", "both"])
-    k = d.i(0, 11)
+    k = d.i(0, 12)
+    if k == 12:
+        src = "".join(gen.tight_nest(d) + d.pick(["", " "]) for _ in range(d.i(1, 3))) + d.pick(["", " \"q\"", " 'r'"])
+        return {"kind": "onoff", "preset": preset, "quotes": q, "mode": mode, "src": src, "linkify": False, "html": d.chance(0.5), "late": d.chance(0.3)}
     if k >= 10:
         parts = []
         for _ in range(d.i(1, 3)):
